@@ -2,7 +2,7 @@
 import ast
 
 from .. import compq, pyq
-from ..pysrc import dotted, norm
+from ..pysrc import dotted, norm, flat
 from .c35 import check as _c35  # noqa: F401
 
 R, MC = compq.RM, compq.MC
@@ -17,12 +17,12 @@ def check(ctx, src):
     comp = compq.Compiler(src)
     rq = comp.rm.func("compile_require")
     ctx.require(rq is not None, "compile_require not found")
-    arm = pyq.contains(rq, lambda n: isinstance(n, ast.If) and "require(module_name, compiler.module" in " ".join(ast.unparse(n.test).split()))
+    arm = pyq.contains(rq, lambda n: isinstance(n, ast.If) and "require(module_name, compiler.module" in flat(n.test))
     ctx.require(arm is not None, "compile_require: module-level arm not found")
     ct = pyq.contains(arm.test, lambda n: isinstance(n, ast.Call) and dotted(n.func) == "require")
     kw = {k.arg: norm(k.value) for k in ct.keywords}
     ctx.check(norm(ct.args[0]) == "module_name" and kw.get("assignments") == "assignments" and kw.get("prefix") == "prefix", "REQ-MIRROR", f"{R}|compile_require|compile-time call", f"compile-time require is called with {norm(ct)[:100]}", R, ct.lineno, detail="module_name, assignments, prefix")
-    t = " ".join(ast.unparse(arm.body[0]).split())
+    t = flat(arm.body[0])
     pieces = ["dotted('hy.macros.require'), String(module_name), Symbol('None'), Keyword('target_module_name'), String(compiler.module.__name__)",
               "Keyword('assignments'), String('EXPORTS') if assignments == 'EXPORTS' else List([List([String(k), String(v)]) for k, v in assignments])",
               "Keyword('prefix'), String(prefix)"]
@@ -32,7 +32,7 @@ def check(ctx, src):
     ctx.check(isinstance(arm.body[0], ast.AugAssign) and norm(arm.body[0].target) == "ret" and len(arm.body) == 2 and norm(arm.body[1]) == "ret += ret.expr_as_stmt()", "REQ-MIRROR", f"{R}|compile_require|emitted iff required",
               "the run-time call must be emitted (as a statement) exactly in the arm guarded by the compile-time require", R, arm.lineno, detail="inside the arm")
     rr = pyq.contains(rq, lambda n: isinstance(n, ast.If) and norm(n.test) == "require_reader(module_name, compiler.module, reader_assignments)")
-    t = " ".join(ast.unparse(rr).split()) if rr is not None else ""
+    t = flat(rr) if rr is not None else ""
     ctx.check(rr is not None and "dotted('hy.macros.require-reader'), String(module_name), 'None', [reader_assignments]" in t and "dotted('hy.macros.enable-readers'), 'None', mkexpr(dotted('hy.reader.HyReader.current-reader')), [reader_assignments]" in t, "REQ-MIRROR",
               f"{R}|compile_require|readers", "the run-time require-reader / compile-time enable-readers pair must use the same module name and reader names as the compile-time require_reader", R, rq.lineno, detail="same module_name and reader_assignments")
     mn = pyq.contains(rq, lambda n: isinstance(n, ast.Assign) and norm(n) == "module_name = module_name_str(module)")
@@ -41,7 +41,7 @@ def check(ctx, src):
     # --- run-time behaviour of require
     rf = comp.mc.func("require")
     ctx.require(rf is not None, "require not found")
-    t = " ".join(ast.unparse(rf).split())
+    t = flat(rf)
     ctx.check("out.extend(require(f'{source_module.__name__}.{mangle(name)}', target_module or target, 'ALL', prefix=alias))" in t, "REQ-RUNTIME", f"{MC}|require|submodule fallback target",
               "the submodule fallback must pass on the resolved target module (or dict), not the raw `target`, which is None in the emitted run-time call", MC, rf.lineno,
               witness="(require pkg [sub]) from a .pyc installs sub's macros into hy.macros' own globals", detail="target_module or target")
@@ -51,13 +51,13 @@ def check(ctx, src):
     im = src.py(IM)
     cb = im.func("_could_be_hy_src")
     ctx.require(cb is not None, "_could_be_hy_src not found")
-    t = " ".join(ast.unparse(cb.body[-1]).split())
+    t = flat(cb.body[-1])
     ctx.check(t == "return os.path.splitext(filename)[1] not in set(importlib.machinery.SOURCE_SUFFIXES) - {'.hy'}", "HY-OR-PY", f"{IM}|_could_be_hy_src|predicate", f"the Hy-source predicate is `{t}`", IM, cb.lineno,
               witness="a Hy file named mod.PY is handed to the Python compiler", detail="ext not in SOURCE_SUFFIXES - {.hy}, case-sensitive")
     sc = im.func("_hy_source_to_code")
     ctx.require(sc is not None, "_hy_source_to_code not found")
     g = sc.body[0]
-    tt = " ".join(ast.unparse(sc).split())
+    tt = flat(sc)
     ctx.check(isinstance(g, ast.If) and norm(g.test) == "_could_be_hy_src(path)" and "data = hy_compile(hy_tree, module)" in tt and isinstance(sc.body[-1], ast.Return) and "_py_source_to_code(self, data, path" in norm(sc.body[-1]).replace("\n", ""),
               "HY-OR-PY", f"{IM}|_hy_source_to_code|structure", "Hy compilation must happen exactly under _could_be_hy_src(path) and every path must end in Python's source_to_code", IM, sc.lineno, detail="if hy: compile; return _py_source_to_code(...)")
     ctx.check("read_many(source, filename=path, skip_shebang=True, reader=HyReader())" in tt and "with loader_module_obj(self) as module:" in tt, "HY-OR-PY", f"{IM}|_hy_source_to_code|reading", "the module must be read with a fresh reader and compiled against the loader's module object", IM, sc.lineno, detail="fresh reader; loader_module_obj")
